@@ -531,9 +531,9 @@ def check(prop, tier, seed):
             d = compare_case(c, impl.get(c[0]), mod.get(c[0]))
             if d and "timeout" in str(d.get("observed", "")) and ss.cfg != "tsan" and ss.name not in ("pool", "tsan-pool"):
                 # slow is not wrong: a case that ran out of its (load-dependent) time budget is run again
-                # alone with a 15x budget; a real hang still times out and is reported
+                # alone with a 15x budget (at most 15 minutes, or twice the stream's own budget); a real hang still times out and is reported
                 i2, m2, e2 = run_cases([c], ss.cfg, os.path.join(rundir, ss.name + "_retry"), ss.extra_defs, ss.tag,
-                                       ss.timeout * 15, ss.env, phase2=ss.phase2)
+                                       min(ss.timeout * 15, max(900, 2 * ss.timeout)), ss.env, phase2=ss.phase2)
                 if not e2:
                     d = compare_case(c, i2.get(c[0]), m2.get(c[0]))
                     retried[0] += 1
